@@ -228,6 +228,23 @@ func helperValueSame(pv *big.Int, pi []byte) (same bool) {
 	return got.Cmp(new(big.Int).SetBytes(pi[:32])) == 0
 }
 
+func reverse(b []byte) []byte {
+	out := make([]byte, len(b))
+	for i := range b {
+		out[i] = b[len(b)-1-i]
+	}
+	return out
+}
+
+func pad32(b []byte) []byte {
+	if len(b) >= 32 {
+		return b
+	}
+	out := make([]byte, 32)
+	copy(out[32-len(b):], b)
+	return out
+}
+
 func mutations(k keypair, m []byte, pi []byte, stride int) {
 	flip := func(b []byte, bit int) []byte {
 		c := append([]byte(nil), b...)
@@ -245,6 +262,30 @@ func mutations(k keypair, m []byte, pi []byte, stride int) {
 	}
 	for bit := 0; bit < 640; bit += stride {
 		emit("Mutate", map[string]interface{}{"part": part(bit), "bit": bit, "accepted": verify(k.pk, flip(pi, bit), m)})
+	}
+	// an encoding longer than 80 bytes (proof followed by bytes) as the proof, and single-bit flips of its tail
+	for _, extra := range []int{1, 16} {
+		long := append(append([]byte(nil), pi...), make([]byte, extra)...)
+		long[80] = 0x5a
+		emit("Overlong", map[string]interface{}{"extra": extra, "accepted": verify(k.pk, long, m),
+			"acceptedThroughHeader": verify(k.pk, vrf.VRFProve(long).Big().Bytes(), m)})
+		if verify(k.pk, long, m) {
+			for bit := 640; bit < 640+8*extra; bit += 3 {
+				emit("Mutate", map[string]interface{}{"part": "trailingByte", "bit": bit, "accepted": verify(k.pk, flip(long, bit), m)})
+			}
+		}
+	}
+	// the same gamma and c with s + L (L: order of the prime-order subgroup): another encoding of the proof
+	{
+		sv := new(big.Int).SetBytes(reverse(pi[48:80]))
+		l, _ := new(big.Int).SetString("7237005577332262213973186563042994240857116359379907606001950938285454250989", 10)
+		sv.Add(sv, l)
+		if sv.BitLen() <= 256 {
+			alt := append([]byte(nil), pi...)
+			copy(alt[48:80], reverse(pad32(sv.Bytes())))
+			emit("AltEncoding", map[string]interface{}{"kind": "sPlusL", "accepted": verify(k.pk, alt, m),
+				"sameOutput": bytes.Equal(vrf.VRFProof2Hash(alt), vrf.VRFProof2Hash(pi))})
+		}
 	}
 	for bit := 0; bit < 8*len(m); bit += stride {
 		emit("Mutate", map[string]interface{}{"part": "msg", "bit": bit, "accepted": verify(k.pk, pi, flip(m, bit))})
@@ -316,6 +357,15 @@ func qualCases(cases []qcase) {
 	if rb > 1<<30 {
 		vutil.Fatalf("reward blocks %d out of the trace's integer range", rb)
 	}
+	safe := func(pi []byte, height, W, S uint64) (q qual, panicked bool) {
+		defer func() {
+			if r := recover(); r != nil {
+				panicked = true
+			}
+		}()
+		return qualify(pi, height, W, S), false
+	}
+	_ = safe
 	ask := func(ci int, again bool) {
 		c := cases[ci]
 		S, W := leToUint64(c.S), leToUint64(c.W)
@@ -337,6 +387,15 @@ func qualCases(cases []qcase) {
 				counts["askedAgain"]++
 			} else if q1.Ok {
 				counts["qualified"]++
+			}
+			if !again {
+				// the same lottery value carried by an encoding that is one byte longer than a proof
+				long := append(append([]byte(nil), pi...), 0x5a)
+				ql, panicked := safe(long, height, W, S)
+				emit("ValidateProve", map[string]interface{}{"kid": fmt.Sprintf("%d-%d-long", ci, vi), "again": false, "extra": 1, "panicked": panicked,
+					"v": v, "S": c.S, "W": c.W, "height": int(height), "p025": p025, "rewardBlocks": int(rb), "maxQN": model.Param.MaxQN,
+					"ok": ql.Ok, "qn": ql.Qn, "ok2": ql.Ok, "qn2": ql.Qn})
+				counts["validateLong"]++
 			}
 		}
 	}
@@ -361,6 +420,15 @@ func qualCases(cases []qcase) {
 	for k := len(order) - 1; k >= 0; k-- {
 		ci := order[k]
 		ask(ci, true)
+	}
+	// more working miners than stake units, after the activation: difficulty = stake / working miners = 0
+	pi := make([]byte, 80)
+	pi[0] = 0x40
+	for _, sw := range [][2]uint64{{3, 5}, {1, 2}, {10, 11}} {
+		q, panicked := safe(pi, p025+rb+1, sw[1], sw[0])
+		emit("Total", map[string]interface{}{"S": int(sw[0]), "W": int(sw[1]), "active": true, "panicked": panicked, "ok": q.Ok, "qn": q.Qn})
+		q, panicked = safe(pi, 5, sw[1], sw[0])
+		emit("Total", map[string]interface{}{"S": int(sw[0]), "W": int(sw[1]), "active": false, "panicked": panicked, "ok": q.Ok, "qn": q.Qn})
 	}
 }
 
@@ -648,7 +716,7 @@ func main() {
 		boundary(rng, 12)
 	}
 	tr.Close()
-	fmt.Printf("c16: msgpair=%d askedAgain=%d retain=%d concurrent=%d boundary=%d prove=%d transport=%d z0=%d z1=%d z2=%d mutate=%d torsion=%d torsionAccepted=%d shiftedAccepted=%d validate=%d qualified=%d events=%d\n",
-		counts["VrfMsgPair"], counts["askedAgain"], counts["Retain"], counts["Concurrent"], counts["Boundary"], counts["Prove"], counts["Transport"], counts["z0"], counts["z1"], counts["z2"], counts["Mutate"], counts["Torsion"],
+	fmt.Printf("c16: overlong=%d validateLong=%d total=%d msgpair=%d askedAgain=%d retain=%d concurrent=%d boundary=%d prove=%d transport=%d z0=%d z1=%d z2=%d mutate=%d torsion=%d torsionAccepted=%d shiftedAccepted=%d validate=%d qualified=%d events=%d\n",
+		counts["Overlong"], counts["validateLong"], counts["Total"], counts["VrfMsgPair"], counts["askedAgain"], counts["Retain"], counts["Concurrent"], counts["Boundary"], counts["Prove"], counts["Transport"], counts["z0"], counts["z1"], counts["z2"], counts["Mutate"], counts["Torsion"],
 		counts["torsionAccepted"], counts["shiftedAccepted"], counts["ValidateProve"], counts["qualified"], tr.N)
 }
